@@ -644,8 +644,13 @@ impl PoolGen {
         } else {
             PoolType::ConstantProduct
         };
-        let fees = match self.rng.gen_range(0..6) {
+        let fees = match self.rng.gen_range(0..7) {
             0 => pool_fee(0, 0, 0, &[]),
+            // shares with digits far beyond basis points (1/300, 0.001234567890123456, ...)
+            6 => {
+                let fine = |rng: &mut StdRng| Fee { share: Decimal::from_atomics(rng.gen_range(1u128..30_000_000_000_000_000), 18).unwrap() };
+                PoolFee { protocol_fee: Fee { share: Decimal::from_ratio(1u128, 300u128) }, swap_fee: fine(&mut self.rng), burn_fee: fine(&mut self.rng), extra_fees: vec![fine(&mut self.rng)] }
+            }
             1 => pool_fee(500, 500, 500, &[250, 250]), // exactly the 20% cap
             2 => pool_fee(self.rng.gen_range(0..100), self.rng.gen_range(0..100), self.rng.gen_range(0..50), &[]),
             3 => pool_fee(1, 1, 1, &[1, 1, 1]),
